@@ -349,6 +349,8 @@ class PCGLS:
         The maximum number of iterations.
     tol : float
         The numerical tolerance for convergence checks.
+    shift : float
+        The shift parameter (s). If nonzero, the system (A^T A + s I) x = A^T b is solved.
     """    
     def __init__(self, A, b, x0, P, maxit, tol=1e-6, shift=0):
         self._A = A
@@ -379,7 +381,7 @@ class PCGLS:
         # initial state
         x = self._x0.copy()
         r = self._b - self._apply_A(x, 1)
-        s = self._apply_Pinv(self._apply_A(r, 2), 2)
+        s = self._apply_Pinv(self._apply_A(r, 2) - self._shift*x, 2)
         p = s.copy()
 
         # initial computations        
@@ -395,7 +397,7 @@ class PCGLS:
             t = self._apply_Pinv(p, 1)
             q = self._apply_A(t, 1)
             #
-            delta_cgls = LA.norm(q)**2
+            delta_cgls = LA.norm(q)**2 + self._shift*LA.norm(t)**2
             if (delta_cgls < 0):
                 indefinite = True
             elif (delta_cgls == 0):
@@ -404,7 +406,7 @@ class PCGLS:
             #
             x += alpha_cgls*t
             r -= alpha_cgls*q
-            s = self._apply_Pinv(self._apply_A(r, 2), 2)
+            s = self._apply_Pinv(self._apply_A(r, 2) - self._shift*x, 2)
             #
             norms = LA.norm(s)
             gamma1 = gamma.copy()
